@@ -334,6 +334,11 @@ fn model(c: &Case03) -> Model {
             keyed.push((ks, r));
         }
         let mut unknown = false;
+        for i in 0..c.sorts.len() {
+            if !all_comparable(&keyed.iter().map(|k| &k.0[i]).collect::<Vec<_>>()) {
+                return Model::Unspecified("sort key order not specified (different objects / integers beyond 2^53)".into());
+            }
+        }
         keyed.sort_by(|a, b| {
             for (i, (_, desc)) in c.sorts.iter().enumerate() {
                 let o = match cmp3(&a.0[i], &b.0[i]) {
